@@ -20,9 +20,13 @@ What is explicit (never hidden):
                treats every value `≤ 0` that way).
 
 What the pipeline does with a context that is done (typically: answer `ctx.Err()`)
-is part of `BatchOut` like any other failure.  Not modelled: a worker group stopped
-during a call (C14's business), and the cache's garbage collector (`ClearExpired`
-only deletes entries that `Get` already treats as absent).
+is part of `BatchOut` like any other failure.  A runner closed BEFORE a call submits
+nothing (`order = []`: the stopped worker group refuses every job); a worker group
+stopped DURING a call still delivers every submitted job (C14; the driver adds the
+failed deliveries the pipeline never saw).  Not modelled: the cache's garbage collector
+(`ClearExpired` only deletes entries that `Get` already treats as absent).
+Further down: the runner's life cycle (`lifeStep`) and a check call made through
+`Observer.Process` (`process`).
 -/
 namespace AutoVerif.C13
 
@@ -227,5 +231,97 @@ def modelCall (expire : Nat) (c : Cache) (now : Nat) (ps : List Payload) (ds : L
   | some order =>
     if (decide (order.length = (batches c now ps).length) || cancelled) && order.all (fun i => decide (i < order.length))
     then some (parallelCheck expire c now ps (outOf order ds) order).2 else none
+
+/-! ### the runner's life cycle (`Runner.Start`, `Runner.Close`)
+
+`Start` on a runner that is running answers an error at once and changes nothing; otherwise it
+takes the runner over (sets the flag, starts the cache cleaner) and returns `nil` only when the
+runner is closed.  `Close` on a runner that is not running answers an error and changes nothing;
+otherwise it stops cleaner and worker group, clears the flag and releases the blocked `Start`.
+`CheckUpkeeps` never reads the flag: what a check call returns depends on the life cycle only through
+the worker group being stopped (then nothing is submitted: `order = []`).
+Not modelled: `Start` after a `Close` (the code then closes the cleaner's stop channel a second time at
+the next `Close`), and two life-cycle calls racing on the flag. -/
+
+inductive LifeOp where
+  | start
+  | close
+deriving DecidableEq, Repr
+
+/-- one life-cycle call on a runner whose flag is `running`: the flag afterwards, and whether the call
+answered an error (for `start`: at once; a `start` without error blocks until the runner is closed) -/
+def lifeStep (running : Bool) : LifeOp → Bool × Bool
+  | .start => if running then (running, true) else (true, false)
+  | .close => if !running then (running, true) else (false, false)
+
+/-- the error flags of a sequence of life-cycle calls, from a runner whose flag is `running` -/
+def lifeRun (running : Bool) : List LifeOp → List Bool
+  | [] => []
+  | op :: ops => (lifeStep running op).2 :: lifeRun (lifeStep running op).1 ops
+
+/-- the flag after a sequence of life-cycle calls -/
+def lifeFlag (running : Bool) : List LifeOp → Bool
+  | [] => running
+  | op :: ops => lifeFlag (lifeStep running op).1 ops
+
+/-! ### a check call made through `Observer.Process` (pkg/v3/observer.go)
+
+`Process` takes the payloads from the tick, hands them through the pre-processors in order, calls
+the processor (`Runner.CheckUpkeeps` for `NewRunnableObserver`; whatever function was given to
+`NewGenericObserver`) with what the last pre-processor returned, and hands the processor's results
+together with those payloads to the post-processor.  The first stage that fails ends the call with
+that stage's error; no later stage is invoked.
+
+What a pre-processor does to the list is a parameter: `PreSpec.kind` selects one of a few list
+functions (the harness's pre-processors), `fails` makes it answer an error. -/
+
+structure PreSpec where
+  kind  : Nat
+  fails : Bool
+deriving DecidableEq, Repr
+
+/-- elements at even (`keepEven = true`) / odd positions -/
+def everyOther {α} : Bool → List α → List α
+  | _, [] => []
+  | true, x :: xs => x :: everyOther false xs
+  | false, _ :: xs => everyOther true xs
+
+/-- the list functions of the harness's pre-processors -/
+def preApply {α} (kind : Nat) (l : List α) : List α :=
+  match kind with
+  | 1 => everyOther true l      -- drops every second payload, keeps the first
+  | 2 => everyOther false l     -- drops the first, keeps every second
+  | 3 => l.reverse
+  | 4 => l.drop 1
+  | 5 => []
+  | _ => l
+
+/-- the pre-processor loop: `none` = a pre-processor failed (`return err`), else what the last one
+returned; second component = number of pre-processors that were invoked -/
+def runPres {α} : List PreSpec → List α → Option (List α) × Nat
+  | [], l => (some l, 0)
+  | p :: ps, l =>
+    if p.fails then (none, 1)
+    else let r := runPres ps (preApply p.kind l); (r.1, r.2 + 1)
+
+/-- everything `Process` does that can be seen from outside -/
+structure ProcOut where
+  code     : Nat                                          -- error returned: 0 `nil`, 1 the tick's, 2 a pre-processor's, 3 the processor's, 4 the post-processor's
+  preCalls : Nat                                          -- pre-processors invoked
+  asked    : Option (List Payload)                        -- argument of the processor, if it was called
+  post     : Option (List CheckResult × List Payload)     -- arguments of the post-processor, if it was called
+deriving DecidableEq, Repr
+
+/-- `Observer.Process`; `run` is the processor (its error flag and values) -/
+def process (tickFails : Bool) (tick : List Payload) (pres : List PreSpec) (run : List Payload → Ret)
+    (postFails : Bool) : ProcOut :=
+  if tickFails then { code := 1, preCalls := 0, asked := none, post := none } else
+  match runPres pres tick with
+  | (none, n) => { code := 2, preCalls := n, asked := none, post := none }
+  | (some ps, n) =>
+    let r := run ps
+    if r.err then { code := 3, preCalls := n, asked := some ps, post := none }
+    else if postFails then { code := 4, preCalls := n, asked := some ps, post := some (r.values, ps) }
+    else { code := 0, preCalls := n, asked := some ps, post := some (r.values, ps) }
 
 end AutoVerif.C13
